@@ -181,7 +181,7 @@ func inSameLoop(a, b *ssa.BasicBlock) bool {
 	if a == b {
 		return true
 	}
-	r := ReachFrom(b.Succs, cut)
+	r := ReachFrom(succsNotCut(b, cut), cut)
 	return !r[b]
 }
 
